@@ -23,6 +23,8 @@ Definition tid := nat.
 Inductive status :=
   | Fresh        (* thread not started *)
   | Live         (* executing its test case *)
+  | InHook       (* inside a predicate callback, past the gate, running an operator of the code under test
+                    with tracing temporarily disabled; the recording is still to come *)
   | Aborting     (* TracingAbortedException raised, propagating to the with-block's __exit__ *)
   | Finished     (* left the with-block normally, result put into its queue *)
   | Done.        (* left the with-block after an abort: no result *)
@@ -46,7 +48,9 @@ Inductive action :=
   | Disable (t : tid) | Enable (t : tid)
   | Exit (t : tid)                    (* __exit__ of the with-block (normal or while aborting) *)
   | Stop                              (* main thread: tracer.stop() after the join timed out *)
-  | Harvest (t : tid).                (* main thread: build the ExecutionResult for thread t's test *)
+  | Harvest (t : tid)                 (* main thread: build the ExecutionResult for thread t's test *)
+  | HookBegin (t : tid)               (* a predicate callback starts: _early_return gate, then temporarily_disable *)
+  | HookEnd (t : tid) (e : Z).        (* the operator returned: enable again, record into the thread's OWN trace *)
 
 Definition upd {A} (f : tid -> A) (t : tid) (v : A) : tid -> A :=
   fun u => if Nat.eqb u t then v else f u.
@@ -101,6 +105,20 @@ Definition step (s : state) (a : action) : state :=
       | Aborting => stop_it (set_loc s t {| st := Done; enabled := enabled l; trace := trace l |})
       | _ => s
       end
+  | HookBegin t =>
+      let l := loc s t in
+      if is_live l then
+        if enabled l then
+          if is_current s t then set_loc s t {| st := InHook; enabled := false; trace := trace l |}
+          else set_loc s t {| st := Aborting; enabled := enabled l; trace := trace l |}
+        else s
+      else s
+  | HookEnd t e =>
+      let l := loc s t in
+      match st l with
+      | InHook => set_loc s t {| st := Live; enabled := true; trace := trace l ++ [e] |}
+      | _ => s
+      end
   | Stop => set_current s None
   | Harvest t =>
       match results s t with
@@ -120,6 +138,7 @@ Definition raises (s : state) (a : action) : bool :=
   match a with
   | Probe t _ => is_live (loc s t) && enabled (loc s t) && negb (is_current s t)
   | Check t => is_live (loc s t) && negb (is_current s t)
+  | HookBegin t => is_live (loc s t) && enabled (loc s t) && negb (is_current s t)
   | _ => false
   end.
 
@@ -131,7 +150,7 @@ Fixpoint raised (s : state) (sched : list action) : list bool :=
 
 Definition actor (a : action) : option tid :=
   match a with
-  | Init t | Enter t | Probe t _ | Check t | Disable t | Enable t | Exit t => Some t
+  | Init t | Enter t | Probe t _ | Check t | Disable t | Enable t | Exit t | HookBegin t | HookEnd t _ => Some t
   | Stop | Harvest _ => None
   end.
 
@@ -154,7 +173,7 @@ Definition exec_duration (tmo maxT : Z) (fin : option Z) : Z :=
 
 (* ---- correspondence ----------------------------------------------------------------------------- *)
 Definition status_code (x : status) : Z :=
-  match x with Fresh => 0 | Live => 1 | Aborting => 2 | Finished => 3 | Done => 4 end.
+  match x with Fresh => 0 | Live => 1 | Aborting => 2 | Finished => 3 | Done => 4 | InHook => 5 end.
 
 Fixpoint eqb_listZ (a b : list Z) : bool :=
   match a, b with
@@ -170,23 +189,31 @@ Fixpoint eqb_listb (a b : list bool) : bool :=
   | _, _ => false
   end.
 
+(* events >= 1000000 are predicate events (kept in a separate container by the real trace) *)
+Definition is_pred (e : Z) : bool := 1000000 <=? e.
+Definition lines_of (l : list Z) : list Z := filter (fun e => negb (is_pred e)) l.
+Definition preds_of (l : list Z) : list Z := filter is_pred l.
+
+(* a harvested result is compared on its line events *)
 Definition eqb_result (a b : option result) : bool :=
   match a, b with
   | None, None => true
   | Some RTimeout, Some RTimeout => true
-  | Some (ROk x), Some (ROk y) => eqb_listZ x y
+  | Some (ROk x), Some (ROk y) => eqb_listZ (lines_of x) y
   | _, _ => false
   end.
 
-(* per thread: status code, enabled flag, trace, result *)
-Definition tobs := (Z * bool * list Z * option result)%type.
+(* The real ExecutionTrace keeps covered lines and executed predicates in two containers; events >= 1000000
+   are predicate events.  Per thread: status code, enabled flag, line events, predicate events, result. *)
+Definition tobs := (Z * bool * list Z * list Z * option result)%type.
 
 Fixpoint check_threads (s : state) (t : nat) (obs : list tobs) : bool :=
   match obs with
   | [] => true
-  | (c, en, tr, r) :: rest =>
+  | (c, en, tr, pr, r) :: rest =>
       let l := loc s t in
-      Z.eqb (status_code (st l)) c && Bool.eqb (enabled l) en && eqb_listZ (trace l) tr
+      Z.eqb (status_code (st l)) c && Bool.eqb (enabled l) en && eqb_listZ (lines_of (trace l)) tr
+      && eqb_listZ (preds_of (trace l)) pr
       && eqb_result (results s t) r && check_threads s (S t) rest
   end.
 
